@@ -39,7 +39,11 @@ Record COps := mkCOps {
   eqb : T -> T -> bool;        (* a == b *)
   c_mn : T;                    (* sc.constants.m_n [kg] *)
   c_h : T;                     (* sc.constants.h [J*s] *)
-  to_s_per_m : T -> T          (* .to(unit='s/m') of an angstrom*kg/(J*s) value: times 1e-10 *)
+  to_s_per_m : T -> T;         (* .to(unit='s/m') of an angstrom*kg/(J*s) value: times 1e-10 *)
+  reuse_equal : bool           (* which text of `_chop` is modelled: true = the wavelength of an edge with
+                                  equal end wavelengths is reused at the intersection (notes/fixes/
+                                  C11_regular.patch); false = always interpolated (the text before the fix,
+                                  kept for regular_float_refuted and for diagnosing an unfixed tree) *)
 }.
 
 (* consecutive pairs of a list: pairs [a;b;c] = [(a,b);(b,c)] *)
@@ -69,10 +73,13 @@ Definition shear (d : T) (V : poly) : poly :=
 (* inside = frame.time >= time if close_to_open else frame.time <= time *)
 Definition inside (ge : bool) (a : T) (p : pt) : bool :=
   if ge then leb O a (fst p) else leb O (fst p) a.
-(* t = (time - time[i]) / (time[j] - time[i]);  v = (1 - t) * wav[i] + t * wav[j];  (time, v) *)
+(* t = (time - time[i]) / (time[j] - time[i])
+   if wav[i] == wav[j]: v = wav[i]  else: v = (1 - t) * wav[i] + t * wav[j]
+   output (time, v) *)
 Definition cut (a : T) (p q : pt) : pt :=
   let s := div O (sub O a (fst p)) (sub O (fst q) (fst p)) in
-  (a, add O (mul O (sub O (one O) s) (snd p)) (mul O s (snd q))).
+  (a, if reuse_equal O && eqb O (snd p) (snd q) then snd p
+      else add O (mul O (sub O (one O) s) (snd p)) (mul O s (snd q))).
 Definition step (ge : bool) (a : T) (e : pt * pt) : list pt :=
   (if inside ge a (fst e) then [fst e] else [])
   ++ (if xorb (inside ge a (fst e)) (inside ge a (snd e)) then [cut a (fst e) (snd e)] else []).
